@@ -6,6 +6,7 @@
 use h_common::{tool_error, Args};
 
 mod ranges;
+mod session;
 mod store;
 mod syncrange;
 mod windowsearch;
@@ -20,6 +21,8 @@ fn main() {
         ("record", "ranges") => ranges::record(&args),
         ("replay", "syncrange") => syncrange::replay(&args),
         ("replay", "windowsearch") => windowsearch::replay(&args),
+        ("record", "session") => session::record(&args),
+        ("replay", "vrange") => session::replay_vrange(&args),
         ("record", "store") => store::record(&args),
         _ => tool_error(&format!("unknown mode/model {mode}/{model}")),
     }
